@@ -157,7 +157,7 @@ Theorem slice_succeeds s vi v idx raw idxs :
 Proof.
   intros HS Hv Hlen Hni Hraw Htake. simpl. unfold op_getitem. rewrite Hv.
   destruct (Nat.ltb_spec (length (vshape v)) (length idx)) as [Hlt|_]; [lia|].
-  rewrite Hni, Hraw, Htake.
+  rewrite Hni. cbn [andb]. rewrite Hraw, Htake.
   destruct (SInv_vec s vi v HS Hv) as (_ & _ & V3 & V4 & _).
   rewrite mk_schema_total; auto; [eexists; reflexivity|].
   apply Forall_forall. intros z Hz. apply in_map_iff in Hz. destruct Hz as [ks [<- Hks]].
